@@ -659,6 +659,8 @@ def val_method(it, v, name, args, kw, node):
     if isinstance(v, (Sym, Term)) and name in ('hex', 'decode', 'encode', 'lower', 'upper'):
         if isinstance(v, Term) and v.op == 'fromhex' and name == 'hex':
             return v.a[0]
+        if isinstance(v, Term) and (v.op, name) in (('decode', 'encode'), ('encode', 'decode')) and len(v.a) == 1:
+            return v.a[0]
         return Term(name, v)
     hook = getattr(it, 'method_hook', None)
     if hook is not None:
@@ -694,6 +696,9 @@ def builtin(it, name, args, kw, n):
             src = bits_value(src.pat, 'bytes')
         if all(isinstance(x, K) for x in (src, order, signed)):
             return K(int.from_bytes(src.v, order.v, signed=bool(signed.v)))
+        if isinstance(src, Term) and src.op == 'to_bytes' and isinstance(order, K) and isinstance(signed, K) \
+                and isinstance(src.a[2], K) and isinstance(src.a[3], K) and src.a[2].v == order.v and bool(src.a[3].v) == bool(signed.v):
+            return src.a[0]          # from_bytes(to_bytes(v, n, order, signed), order, signed) == v  (to_bytes raises unless v fits)
         return Term('from_bytes', src, order, signed)
     if name == 'bytes.fromhex' or name == 'bytearray.fromhex':
         if isinstance(args[0], K):
